@@ -1081,7 +1081,9 @@ def chunks(l, n):
 def run(ctx):
     ctx.rule = ("cases are (raw) a random bipartite factor graph (1-9 factors, 1-6 variables) with an arbitrary Normal mean-field "
                 "state and a scripted sequence of 1-12 factor updates (scalar / per-variable / DynamicUpdater damping, valid and "
-                "invalid projections, stale approximations); (par) the same driven by EPOptimiser.run / ParallelEPOptimiser.run with "
+                "invalid projections, stale approximations, and IN-PLACE write-backs on one EPMeanField object -- update_factor_mean_field, "
+                "approx[index] = subset, update -- interleaved with reads of mean_field / model_dist / factor_approximation on that same "
+                "object, also over plated array messages, run on flattened plate elements); (par) the same driven by EPOptimiser.run / ParallelEPOptimiser.run with "
                 "scripted factor optimisers; (decl) a FactorGraphModel of analysis / hierarchical / prior factors with shared priors, "
                 "its initial state, then EPOptimiser.run or .optimise with scripted optimisers (failures, exceptions, early stop) and "
                 "the history / EPResult accessors. A case is non-trivial when at least two factors share a variable (or a "
